@@ -81,11 +81,26 @@ def do_replay(prop, path):
     if same or (rec["key"].startswith("crash") and any(x["key"].startswith("crash") for x in fails)):
         print(f"VIOLATION property={prop} replay={path}")
         return 1
+    if isinstance(rec.get("shard"), dict) and not rec["key"].startswith("crash"):
+        # not reproducible from the single case: the failure may depend on the calls made earlier on the
+        # same objects; re-run the whole shard (deterministic) in this fresh process
+        print("replay: single case did not reproduce; re-running its shard")
+        try:
+            res = mod.run_shard(dict(rec["shard"]))
+            fails = res.get("failures", [])
+        except Exception as e:  # noqa
+            import traceback
+
+            fails = [{"key": f"exception:{type(e).__name__}", "what": traceback.format_exc()[-1500:]}]
+        if any(x["key"] == rec["key"] for x in fails):
+            print(f"replay (whole shard): {rec['key']} reproduced")
+            print(f"VIOLATION property={prop} replay={path}")
+            return 1
     print("replay: no failure reproduced")
     return 0
 
 
-def confirm(prop, variant, path, timeout=300):
+def confirm(prop, variant, path, timeout=1800):
     """Re-execute a failing case in a fresh process. True iff it fails again."""
     env = dict(os.environ)
     env.update(_build.sanitizer_env(variant))
@@ -169,7 +184,14 @@ def main(argv=None):
                 counters[k] = counters.get(k, 0) + v
         if len(samples) < 6:
             samples.extend(res["samples"][:2])
-        failures.extend(res["failures"])
+        for f in res["failures"]:
+            # remember which shard produced it: a failure that depends on the calls made before it in the
+            # shard (caches, reused objects) is confirmed by re-running the shard, see do_replay
+            try:
+                f.setdefault("shard", {k: v for k, v in specs[sid].items() if k not in ("_skip",)})
+            except Exception:  # noqa
+                pass
+            failures.append(f)
     # de-duplicate failures per key
     known = load_known(prop)
     perkey = {}
